@@ -66,7 +66,8 @@ def decode(code):
         else:
             b = ["just-before"]  # 1us before the alarm
         bodies.append({"b": b, "probe": probe})
-    return {"P": P, "t0": T0[t0], "bodies": bodies, "free_at": free_at if free_at < len(bodies) else None, "free_how": ["free", "with", "free-twice"][free_how]}
+    return {"P": P, "t0": T0[t0], "bodies": bodies, "free_at": free_at if free_at < len(bodies) else None, "free_how": ["free", "with", "free-twice"][free_how],
+            "enter_after": [None, 0, 35, 250][free_at % 4] if free_at % 3 == 0 else None}
 
 
 class C16(Lab):
@@ -125,6 +126,20 @@ class C16(Lab):
             Pq = first - t0
             if Pq not in (P, int(P / 1e6 * 1e6)):
                 raise Violation("C16/first-alarm", f"created at {t0}us with period {P}us: first alarm at {first}us; case: {case}")
+            if case.get("enter_after") is not None:
+                # created first, entered as a context manager later: the grid stays anchored at creation time
+                simenv.advance(case["enter_after"] * Pq // 100)
+                try:
+                    if delay.__enter__() is not delay:
+                        raise Violation("C16/enter", f"__enter__ did not return the delay object; case: {case}")
+                except Violation:
+                    raise
+                except Exception as e:  # noqa
+                    raise exc_violation("C16", e, f"__enter__; case: {case}")
+                classes.add("entered-later")
+                armed = hs.getNextNotifierTimeout()
+                if armed != first:
+                    raise Violation("C16/grid", f"created at {t0}us (first alarm {first}us); after entering the with-block at {simenv.now_us()}us the armed alarm is {armed}us; case: {case}")
             freed = False
             big_overrun_seen = False
             nontrivial = False
